@@ -777,17 +777,20 @@ package graphql
 //@   assigns nothing
 
 //@ func Schema.QueryType
-//@   props C02
+//@   props C02 C01 C13
 //@   nosafety
 //@   assigns nothing
+//@   ensures result == gq.queryType
 //@ func Schema.MutationType
-//@   props C02
+//@   props C02 C01 C13
 //@   nosafety
 //@   assigns nothing
+//@   ensures result == gq.mutationType
 //@ func Schema.SubscriptionType
-//@   props C02
+//@   props C02 C01 C13
 //@   nosafety
 //@   assigns nothing
+//@   ensures result == gq.subscriptionType
 
 //@ func InputObject.Fields
 //@   trusted
@@ -981,9 +984,22 @@ package graphql
 //@   assigns nothing
 // (verified, was trusted) the plan is made for the operation SELECTED by name (the only one when no name is
 // given): its root type, its selection set, and its kind decide whether top-level fields run serially (C13)
+// (verified, was trusted) the root type is chosen by the operation's KIND: query -> the query type; mutation /
+// subscription -> that root type, or an error when the schema has none; anything else -> an error (C13, C01: the
+// kind decides which object's resolvers run and whether they run serially)
 //@ func getOperationRootType
-//@   trusted
+//@   props C01 C13
+//@   nosafety
+//@   opt invoke.GetOperation=pure
 //@   assigns nothing
+//@   ensures operation == nil ==> result0 == nil && result1 != nil
+//@   ensures calls("GetOperation") == 1 && lastresult("GetOperation") == ast.OperationTypeQuery ==> result0 == schema.queryType && result1 == nil
+//@   ensures calls("GetOperation") == 1 && lastresult("GetOperation") == ast.OperationTypeMutation && schema.mutationType != nil && schema.mutationType.PrivateName != "" ==> result0 == schema.mutationType && result1 == nil
+//@   ensures calls("GetOperation") == 1 && lastresult("GetOperation") == ast.OperationTypeMutation && schema.mutationType == nil ==> result0 == nil && result1 != nil
+//@   ensures calls("GetOperation") == 1 && lastresult("GetOperation") == ast.OperationTypeSubscription && schema.subscriptionType != nil && schema.subscriptionType.PrivateName != "" ==> result0 == schema.subscriptionType && result1 == nil
+//@   ensures calls("GetOperation") == 1 && lastresult("GetOperation") == ast.OperationTypeSubscription && schema.subscriptionType == nil ==> result0 == nil && result1 != nil
+//@   ensures calls("GetOperation") == 1 && lastresult("GetOperation") != ast.OperationTypeQuery && lastresult("GetOperation") != ast.OperationTypeMutation && lastresult("GetOperation") != ast.OperationTypeSubscription ==> result0 == nil && result1 != nil
+//@   ensures result1 == nil || result0 == nil
 //@ func Plan.planSelectionSet
 //@   trusted
 //@   assigns class:graphql.selectionPlan, class:graphql.fieldPlan, class:graphql.fragmentGate, class:graphql.fragmentTrace, class:E|graphql.collectStep, class:F|[]graphql.collectStep, class:M|string|*graphql.fragmentTrace, class:E|graphql.fragmentSpreadEdge, class:M|string|*graphql.fragmentGate, class:M|string|int, class:M|string|bool, class:E|*graphql.fieldPlan, class:E|*ast.Field, class:E|func, class:graphql.Plan.expanding, class:M|*ast.Field|bool, class:M|*graphql.fieldPlan|bool, class:M|*graphql.fragmentTrace|bool
@@ -1046,6 +1062,16 @@ package graphql
 //@   at call noteFragmentFields#2: assert arg0 == c && arg1 == s.SelectionSet
 //@   loop 1 ensures typeis(isel, "*ast.Field") || typeis(isel, "*ast.InlineFragment") ==> calls("noteFragmentFields") == atloop(1, calls("noteFragmentFields")) + 1
 //@   loop 1 ensures typeis(isel, "*ast.Field") && len(as(isel, "*ast.Field").Arguments) > 0 && as(isel, "*ast.Field").Name != nil ==> c.keptLiteral != nil
+// (frames: both build fresh values / AST nodes and write nothing else; without them every fact about the context was
+// lost at these calls — which went unnoticed while the clauses after the constructor calls were vacuous, §9)
+//@ func variableValueFromLiteral
+//@   props C06
+//@   nosafety
+//@   assigns class:E|interface, class:M|string|interface
+//@ func typeASTFromGoType
+//@   props C06
+//@   nosafety
+//@   assigns class:ast.Name.Kind, class:ast.Named.Kind, class:ast.NonNull.Kind, class:ast.List.Kind
 //@ func normCtx.tryExtract
 //@   props C06
 //@   nosafety
